@@ -32,7 +32,8 @@ REQUIRED = ["deliveries", "invocations", "reentrant_sub", "reentrant_sub_prio",
             "noerrors_swallowed_with_reporting_hook_on",
             "lazily_initialised_sources", "halts_through_the_event_attribute",
             "sinks_bound_with_several_handlers",
-            "handlers_returning_plain_values"]
+            "handlers_returning_plain_values",
+            "histories_with_one_shot_and_permanent_subscriptions_of_one_callable"]
 TIMEOUT = {"quick": 600, "thorough": 5400}
 
 RETS = ["none", "true", "false", "cont", "halt", "remove", "haltremove"]
@@ -754,6 +755,61 @@ def run_dups (case, rep):
   return True
 
 
+def run_dups_once (case, rep):
+  """
+  One callable subscribed several times, some of the subscriptions one-shot:
+  every subscription is its own (it has its own id); a one-shot one is
+  consumed by the delivery that reaches it and takes nothing else with it.
+  case: subs = [(once, priority)], bound = the callable is a bound method
+  (a fresh but equal object at every subscription), raises = how many events.
+  """
+  import pox.lib.revent.revent as R
+  def fire (key, what):
+    rep.violation("C05 " + key, what, case)
+  class E0 (R.Event): pass
+  class Src (R.EventMixin):
+    _eventMixin_events = set([E0])
+  src = Src()
+  log = []
+  class Owner (object):
+    def m (self, e): log.append("h")
+  owner = Owner()
+  def hf (e): log.append("h")
+  def g (e): log.append("g")
+  rep.count("histories_with_one_shot_and_permanent_subscriptions_of_one_callable")
+  src.addListener(E0, g)
+  for once, prio in case["subs"]:
+    src.addListener(E0, owner.m if case.get("bound") else hf, once=bool(once),
+                    priority=prio)
+  permanent = len([1 for once, _ in case["subs"] if not once])
+  want = [len(case["subs"])] + [permanent] * (case["raises"] - 1)
+  got = []
+  for _ in range(case["raises"]):
+    del log[:]
+    try:
+      src.raiseEvent(E0())
+    except Exception:
+      fire("raiseEvent raises", traceback.format_exc()[-400:]); return
+    if log.count("g") != 1:
+      fire("another handler's subscription disturbed by a one-shot one",
+           "g ran %d times" % log.count("g")); return
+    got.append(log.count("h"))
+  if got != want:
+    fire("one-shot subscription of a callable that is also subscribed otherwise",
+         "subscriptions (once, priority) %r: invocations per event %r, expected %r" %
+         (case["subs"], got, want))
+
+
+def gen_dups_once ():
+  shapes = [[1], [1, 0], [0, 1], [1, 1], [0, 1, 0], [1, 0, 1], [1, 1, 0, 0], [0, 0, 1]]
+  for shape in shapes:
+    for prios in ([0] * len(shape), list(range(len(shape))),
+                  list(range(len(shape), 0, -1)), [5, 5, 1, 1][:len(shape)]):
+      for bound in (False, True):
+        yield dict(kind="dups_once", subs=[[o, p] for o, p in zip(shape, prios)],
+                   bound=bound, raises=3)
+
+
 def gen_dups ():
   import itertools
   shapes = [["h", "h"], ["h", "h", "h"], ["h", "g", "h"], ["g", "h", "h"], ["h", "h", "g"],
@@ -768,6 +824,13 @@ def gen_dups ():
 
 
 def do_case (case, rep):
+  if case.get("kind") == "dups_once":
+    try:
+      run_dups_once(case, rep)
+    except Exception:
+      rep.violation("C05 harness-visible exception", traceback.format_exc()[-1200:], case)
+    rep.case(repr(sorted(case.items())), nontrivial=True)
+    return
   if case.get("kind") == "dups":
     try:
       run_dups(case, rep)
@@ -935,7 +998,8 @@ def run (spec, rep):
   elif spec["mode"] == "rand":
     g = gen_random(rng, spec["n"], spec["maxlen"])
   elif spec["mode"] == "dups":
-    g = gen_dups()
+    import itertools
+    g = itertools.chain(gen_dups(), gen_dups_once())
   else:
     g = gen_weak(rng, spec["n"])
   first = True
